@@ -22,7 +22,7 @@ import (
 // classify an error returned by a public method on a source of srcLen bytes:
 //
 //	ok | L<code>@<pos>  library error with position inside the source |  V<code> library validation error without position
-//	BADPOS(<code>@<pos>/<len>) | FOREIGN(<type>) | ERRORPANIC(<code>: <panic>)  -- violations of C07
+//	BADPOS(<code>@<pos>/<len>) | FOREIGN(<type>) | ERRORPANIC(<code>: <panic>) | NOPOS(<code>)  -- violations of C07
 func classify(err error, srcLen int) (res string) {
 	if err == nil {
 		return "ok"
@@ -121,7 +121,8 @@ func classify(err error, srcLen int) (res string) {
 		}
 		return fmt.Sprintf("L%d@%d", code, pos)
 	}
-	return fmt.Sprintf("V%d", code)
+	// "every non-nil error ... exposing code, message and a position": a library error without a position
+	return fmt.Sprintf("NOPOS(%d)", code)
 }
 
 func call(name string, srcLen int, f func() error) (res string) {
@@ -157,8 +158,8 @@ func init() {
 		}
 		done := make(chan string, 1)
 		go func() {
-			if f[0] == "schemaTT" {
-				done <- fuzzTT(src, second, third)
+			if f[0] == "schemaTT" || f[0] == "schemaTT0" {
+				done <- fuzzTT(src, second, third, f[0] == "schemaTT0")
 				return
 			}
 			done <- fuzzOne(f[0], src, second)
@@ -177,10 +178,14 @@ func init() {
 
 // schemaTT R D P: root R with the types @d := D and @p := P, each added to all three (D typically inherits from @p with allOf):
 // AddType, Check, Validate, Example, GetAST; an error may point into any of the three texts
-func fuzzTT(r, d, p []byte) string {
+// schemaTT0: the same with every file unnamed (New("", ...), as the library's own tests do)
+func fuzzTT(r, d, p []byte, unnamed bool) string {
 	var out []string
 	lim := maxInt(len(r), maxInt(len(d), len(p)))
 	root, sd, sp := js.New("root", r), js.New("@d", d), js.New("@p", p)
+	if unnamed {
+		root, sd, sp = js.New("", r), js.New("", d), js.New("", p)
+	}
 	for _, x := range []*js.Schema{root, sd, sp} {
 		x := x
 		out = append(out, call("AddType", lim, func() error { return x.AddType("@d", sd) }))
